@@ -5,10 +5,17 @@ import docs
 import genrun
 import xmlgen
 
-COQ_HEADER = genrun.COQ_HEADER
-COQ_MODEL = "run_pipeline"
-COQ_OK = "(ok_spec run_pipeline)"   # C01_stream_refines: the pipeline equals the in-order per-packet reference
-COQ_INPUT_TYPE = genrun.COQ_INPUT_TYPE
+COQ_HEADER = ("From SPP Require Import Model.Xml.\n" + genrun.COQ_HEADER + "\nFrom SPP Require Model.Loader Model.Compile Corr.E2E.\n"
+              "Definition e2e_of (i : (list (string * lit) * (option string * Model.Xml.parsed) * string * options * list (list (Z * Z))) * definition) := "
+              "Corr.E2E.run_e2e (fst i).\n"
+              "Definition pipeline_of (i : (list (string * lit) * (option string * Model.Xml.parsed) * string * options * list (list (Z * Z))) * definition) := "
+              "let '((_, _, root, o, pkts), d) := i in run_pipeline (d, root, o, pkts).")
+# model = the whole chain on the XML document itself (load -> link -> compile -> frame -> decode);
+# ok    = the definition-level pipeline (C01_stream_refines: equal to the in-order per-packet reference) on the definition the
+#         harness derives from the same abstract document: both must equal the implementation's output
+COQ_MODEL = "e2e_of"
+COQ_OK = "(ok_spec pipeline_of)"
+COQ_INPUT_TYPE = "(list (string * lit) * (option string * Model.Xml.parsed) * string * options * list (list (Z * Z))) * definition"
 SHARD = 20
 RULE = ("generated documents (every parameter type x encoding x calibrator x criteria form x inheritance/nesting x dynamic lengths, "
         "combined: unaligned fields after dynamic-length fields inside inherited containers, calibrated references used as lengths) "
@@ -16,7 +23,32 @@ RULE = ("generated documents (every parameter type x encoding x calibrator x cri
         "every item compared on names, order, value, raw value and Python class; distinct = distinct (document, stream, options)")
 ASSUMPTIONS = ["supported subset: DESIGN.md section 4 C01; Array/Aggregate types, MathOperationCalibrator, CustomAlgorithm, NextContainer, "
                "spline order >= 2, DEC/IBM/TI floats are outside it", "the XML loader is tied to the document model under C09/C16/C17"]
-coq_input = genrun.coq_input
+
+
+def literals(xml_text):
+    """every comparison literal of the document with its int()/float()/str readings (CPython number parsing is modelled)"""
+    import lxml.etree as ET
+    import vals
+    root = ET.fromstring(xml_text.encode())
+    found = []
+    for el in root.iter():
+        if not isinstance(el.tag, str):
+            continue
+        local = ET.QName(el).localname
+        s = el.get("value") if local == "Comparison" else (el.text if local == "Value" else None)
+        if s is not None and s not in found:
+            found.append(s)
+    return core.clist(f"({core.cstr(s)}, {vals.lit_coq(s)})" for s in found)
+
+
+def coq_input(case):
+    import xmlcorr
+    ns = tuple(case["ns"])
+    x = xmlgen.document_xml(case["doc"], ns)
+    prefix = ns[1] if ns[0] == "prefix" else None
+    return (f"(({literals(x)}, ({xmlcorr.copt(prefix)}, {xmlcorr.parsed_coq(x)}), {core.cstr(case['doc']['root'])}, "
+            f"{genrun.opts_coq(case['opts'])}, {core.clist(core.cbytes(bytes.fromhex(pk)) for pk in case['packets'])}), "
+            f"{docs.definition_coq(case['doc'])})")
 
 
 def gen(rng, tier):
